@@ -43,6 +43,8 @@ pub type Handler = dyn Fn(&Request) -> Response + Send + Sync;
 pub struct Httpd {
     pub port: u16,
     stop: Arc<AtomicBool>,
+    /// connections accepted and not yet answered (a request may outlive the client call that sent it)
+    pub active: Arc<std::sync::atomic::AtomicUsize>,
 }
 
 /// `a-b` or `bytes=a-b`, both ends inclusive
@@ -134,6 +136,8 @@ impl Httpd {
         let port = listener.local_addr()?.port();
         let stop = Arc::new(AtomicBool::new(false));
         let stop2 = stop.clone();
+        let active = Arc::new(std::sync::atomic::AtomicUsize::new(0));
+        let active2 = active.clone();
         std::thread::Builder::new().name("httpd".into()).spawn(move || {
             for conn in listener.incoming() {
                 if stop2.load(Ordering::SeqCst) {
@@ -141,11 +145,16 @@ impl Httpd {
                 }
                 if let Ok(s) = conn {
                     let h = handler.clone();
-                    let _ = std::thread::Builder::new().name("httpd-conn".into()).spawn(move || serve(s, h));
+                    let act = active2.clone();
+                    act.fetch_add(1, Ordering::SeqCst);
+                    let _ = std::thread::Builder::new().name("httpd-conn".into()).spawn(move || {
+                        serve(s, h);
+                        act.fetch_sub(1, Ordering::SeqCst);
+                    });
                 }
             }
         })?;
-        Ok(Self { port, stop })
+        Ok(Self { port, stop, active })
     }
 
     pub fn base(&self) -> String {
